@@ -203,6 +203,40 @@ def check(ctx):
                             "device's gate set) reach the simulator unchecked", line=f.node.lineno)
     rep.floor("device pipelines", len(PIPELINES), 5)
 
+    # ---- order: the wire check runs on the circuit the simulator will see ------------------------------
+    rep.rule("R-C33-order", "in the pipelines of default.qubit, default.mixed, default.clifford and reference.qubit validate_device_wires is added after "
+             "every transform that can add wires (defer_measurements, device_resolve_dynamic_wires) — 'Defer first since it adds wires to the "
+             "device' (default.mixed); default.tensor, which rejects foreign wires at execution, is reported as undecided")
+    ADDERS = ("defer_measurements", "device_resolve_dynamic_wires")
+    n_ord = 0
+    for (rel, cname, meth), _req in sorted(PIPELINES.items()):
+        f = ix.cls(rel, cname).own_method(meth)
+        seq = []
+        for n in sorted((x for x in walk_shallow(f.node) if isinstance(x, ast.Call) and isinstance(x.func, ast.Attribute) and x.func.attr == "add_transform" and x.args),
+                        key=lambda x: (x.lineno, x.col_offset)):
+            seq.append((norm(n.args[0]).split(".")[-1], n))
+        names = [s_[0] for s_ in seq]
+        if "validate_device_wires" not in names:
+            continue
+        iv = names.index("validate_device_wires")
+        for a_ in ADDERS:
+            if a_ not in names:
+                continue
+            n_ord += 1
+            late = [i for i, nm in enumerate(names) if nm == a_ and i > iv]
+            where = f"{rel}:{cname}.{meth} {a_} before validate_device_wires"
+            if not late:
+                rep.proved("R-C33-order", where, "the wire check sees the wires this transform adds")
+            elif cname in ("DefaultQubit", "DefaultMixed", "DefaultClifford", "ReferenceQubit"):
+                rep.refuted("R-C33-order", rel, f"{cname}.{meth}", f"add_transform({a_}, …) after add_transform(validate_device_wires, …)",
+                            f"`{a_}` is added to the pipeline after validate_device_wires: the auxiliary wires it introduces are never checked against the "
+                            f"device, so a circuit that needs more wires than {cname} has is simulated on a larger register instead of being rejected "
+                            "with a WireError", line=seq[late[0]][1].lineno)
+            else:
+                rep.unknown("R-C33-order", where, f"{cname} checks wires before `{a_}`; probed: default.tensor rejects the enlarged circuit at execution "
+                                                  "(WireError from the tensor-network backend), so nothing runs on a foreign wire")
+    rep.floor("(wire-adding transform, wire check) pairs in device pipelines", n_ord, 5)
+
     # ---- gate tables -------------------------------------------------------------------------------
     from ..opfacts import resolve_op_name
 
